@@ -72,9 +72,9 @@ abbrev otSize : Nat := NV.Gen.C08.otSize
 abbrev lvSize : Nat := NV.Gen.C08.livingHashSize
 
 /-- otable.c `ObjHash` -/
-def hashN (n : Name) : Nat := whashstr n.str 40 &&& (otSize - 1)
+def hashN (n : Name) : Nat := whashstr n.str NV.Gen.C08.objHashPrefix &&& (otSize - 1)
 /-- object.c `hash_living_name` -/
-def lhash (s : String) : Nat := whashstr s 20 % lvSize
+def lhash (s : String) : Nat := whashstr s NV.Gen.C08.livingHashPrefix % lvSize
 
 /-! ## state -/
 
@@ -272,11 +272,12 @@ def superWalk (c : Core) (item : Nat) : Nat → Option Nat → Walk
 /-! ## operations, hooks, tasks -/
 
 inductive Hook where
-  | create | init | mod | act | id | hbeat
+  | create | init | mod | act | id | hbeat | ofilt
   deriving DecidableEq, Repr
 
 def Hook.str : Hook → String
   | .create => "create" | .init => "init" | .mod => "mod" | .act => "act" | .id => "id" | .hbeat => "hbeat"
+  | .ofilt => "ofilt"
 
 /-- what a scripted LPC object can do (harness/mudlib/c08/obj.c: do_op) -/
 inductive Op where
@@ -300,6 +301,8 @@ inductive Op where
   | rd                       -- read that variable back
   | err                      -- error("boom")
   | mvarg                    -- inside move_or_destruct(dest): if (dest) move_object(dest)
+  | obf                      -- objects("ofilt"): obj_list walked with a filter function of the executing object
+  | ct (o : Op)              -- catch (o)
   | nop
   deriving Repr
 
@@ -323,6 +326,9 @@ structure World where
   hbTodo : Nat := 0
   curHb : Option Nat := none              -- current_heart_beat
   initBad : Bool := false                 -- ghost: an init() was called between objects that are not adjacent
+  catching : Nat := 0                     -- number of catch() frames around the running code (innermost error context
+                                          -- is a catch frame iff > 0)
+  res : List Nat := []                    -- the array returned by the last objects(filter) (result register)
   out : List String := []                 -- canonical trace, newest first
 
 def emit (w : World) (s : String) : World := { w with out := s :: w.out }
@@ -331,6 +337,22 @@ def oid (i : Nat) : String := s!"o{i}"
 def ooid : Option Nat → String
   | none => "0"
   | some i => oid i
+
+def joinIds (l : List Nat) : String := ",".intercalate (l.map oid)
+
+def insertSorted (x : Nat) : List Nat → List Nat
+  | [] => [x]
+  | y :: ys => if y < x then y :: insertSorted x ys else x :: y :: ys
+
+def sortIds (l : List Nat) : List Nat := l.foldr insertSorted []
+
+/-- the registered objects on obj_list, sorted (harness: master->live_ids() = objects() without callbacks) -/
+def liveIds (c : Core) : String :=
+  let l := sortIds (c.ol.filter (· ≥ 2))
+  if l.isEmpty then "-" else joinIds l
+
+/-- an LPC array of objects as the harness prints it -/
+def listStr (l : List Nat) : String := if l.isEmpty then "-" else joinIds l
 
 /-- an LPC object value read from a variable / array / mapping: 0 when the object is destructed -/
 def readRef (c : Core) (i : Nat) : Option Nat :=
@@ -348,13 +370,19 @@ structure R where
 def R.andThen (r : R) (k : World → Option Nat → R) : R :=
   if r.out = .ok then k r.w r.val else r
 
-/-- backend.c set_heart_beat(ob, 0): find the entry, adjust the round in progress, close the gap -/
+/-- a C comparison operator, as regenerated from the source text -/
+def cmpOp (op : String) (a b : Int) : Bool :=
+  if op == "<=" then decide (a ≤ b) else if op == "<" then decide (a < b) else if op == ">=" then decide (a ≥ b)
+  else if op == ">" then decide (a > b) else if op == "==" then decide (a = b) else decide (a ≠ b)
+
+/-- backend.c set_heart_beat(ob, 0): find the entry, adjust the round in progress (`index <= heart_beat_index`,
+    `index < num_hb_to_do`: the two operators are the ones found in the source on this run), close the gap -/
 def hbRemove (w : World) (ob : Nat) : World :=
   match w.hbl.idxOf? ob with
   | none => w
   | some index =>
-    let idx := if w.hbTodo ≠ 0 ∧ (index : Int) ≤ w.hbIdx then w.hbIdx - 1 else w.hbIdx
-    let todo := if w.hbTodo ≠ 0 ∧ index < w.hbTodo then w.hbTodo - 1 else w.hbTodo
+    let idx := if w.hbTodo ≠ 0 ∧ cmpOp NV.Gen.C08.hbIdxOp (index : Int) w.hbIdx then w.hbIdx - 1 else w.hbIdx
+    let todo := if w.hbTodo ≠ 0 ∧ cmpOp NV.Gen.C08.hbTodoOp (index : Int) (w.hbTodo : Int) then w.hbTodo - 1 else w.hbTodo
     { w with hbl := w.hbl.eraseIdx index, hbIdx := idx, hbTodo := todo }
 
 /-- backend.c set_heart_beat(ob, 1): a new entry goes to the end of the array -/
@@ -367,9 +395,15 @@ def hbOff (w : World) : World :=
   | none => w
   | some h => if (w.c.objs h).destructed then { w with curHb := none } else { hbRemove w h with curHb := none }
 
-/-- error(): the master logs the first line; error_handler() resets restrict_destruct (and see `hbOff`) -/
+/-- `hbOff` only happens for an error that no catch() receives (error_handler jumps to do_catch before) -/
+def hbOffU (w : World) : World := if w.catching = 0 then hbOff w else w
+
+/-- error(): the master logs the first line (`caught` when a catch() receives it); error_handler() resets
+    restrict_destruct - the receiving context puts its saved value back (top level: 0; catch: see `.ct`) - and, for an
+    uncaught error, switches the running heart beat off (`hbOff`) -/
 def raise (w : World) (msg : String) : R :=
-  { w := hbOff (emit { w with restrict := none } s!"err {msg}"), out := .err }
+  { w := hbOffU (emit { w with restrict := none } (if w.catching = 0 then s!"err {msg}" else s!"caught {msg}")),
+    out := .err }
 
 def crashR (w : World) (what : String) : R := { w := emit w s!"crash {what}", out := .crash }
 def hangR (w : World) (what : String) : R := { w := emit w s!"hang {what}", out := .hang }
@@ -394,19 +428,21 @@ inductive Task where
   | command (a : Nat) (verb : String)                      -- process_command(verb, a) + user_parser
   | destruct (ob : Nat)                                    -- destruct_object
   | dloop (ob : Nat) (sup0 : Option Nat) (saveR : Option Nat)  -- its `while (ob->contains)` loop
+  | objloop (self : Nat) (rest acc : List Nat)             -- f_objects: the filter pass over the collected objects
 
 def errInside := NV.Gen.C08.errInsideSrc
 def errDestDest := NV.Gen.C08.errDestDestSrc
 def errMoveDested := NV.Gen.C08.errMoveDestedSrc
-def errInitDested := "*An object was destructed at call of init()"
-def errItemDested := "*The object to be moved was destructed at call of init()!"
-def errDestGone := "*The destination to move to was destructed at call of init()!"
+def errInitDested := NV.Gen.C08.errInitDestedSrc ++ "init()"
+def errItemDested := NV.Gen.C08.errItemDestedSrc ++ "init()!"
+def errDestGone := NV.Gen.C08.errDestGoneSrc ++ "init()!"
 def errRestrict := NV.Gen.C08.errRestrictSrc
 def errBadFile := "*Error in loading object '/c08/bad':"
 def errBoom := "*boom"
 def errFis (b : Base) : String :=
   "Bad argument 1 to first_inventory(), Expected: string or object Got: \"/" ++ b.str ++ "\"."
 def errNoDest := NV.Gen.C08.errNoDestSrc
+def errEfunCb := NV.Gen.C08.errEfunCbSrc
 
 /-- the interpreter; every call decreases the fuel -/
 def exec (sc : Scripts) : Nat → Task → World → R
@@ -530,6 +566,22 @@ def exec (sc : Scripts) : Nat → Task → World → R
             (exec sc f (.move self d) (emit w s!"mvb {oid self} {oid d}")).andThen fun w _ =>
               { w := emit w s!"r mv {oid self} {oid d} ok" }
           | none => { w := emit w s!"r mvarg {oid self} 0" }
+        | .obf =>
+          -- f_objects with a filter (since the `fix:` commit): obj_list is collected first - no LPC code runs -, then
+          -- the filter is asked about every collected object that is still alive, then the accepted ones that were
+          -- destructed by later calls are dropped
+          if anyFreed w.c w.c.ol then crashR w "f_objects"
+          else
+            (exec sc f (.objloop self w.c.ol []) (emit w s!"obfb {oid self} {liveIds w.c}")).andThen fun w v =>
+              if (w.c.objs self).destructed then { w := emit w s!"r obf {oid self} ? ?" }
+              else { w := emit w s!"r obf {oid self} {if v.isSome then listStr w.res else "!0"} {liveIds w.c}" }
+        | .ct o =>
+          -- catch (o): save_context() remembers command_giver and restrict_destruct; a caught error restores both
+          let r := exec sc f (.ops self arg [o]) (emit { w with catching := w.catching + 1 } s!"ctb {oid self}")
+          match r.out with
+          | .ok => { w := emit { r.w with catching := w.catching } s!"r ct {oid self} 0" }
+          | .err => { w := emit { r.w with catching := w.catching, cg := w.cg, restrict := w.restrict } s!"r ct {oid self} 1" }
+          | _ => r
         | .nop => { w := w }
       r.andThen fun w _ =>
         -- a script stops when the object executing it has been destructed
@@ -719,6 +771,21 @@ def exec (sc : Scripts) : Nat → Task → World → R
                   -- fix: C08-F1 - re-check after the nested destruct_object
                   if (w.c.objs ob).destructed then { w := w }
                   else exec sc f (.dloop ob sup0 saveR) w
+    | .objloop self rest acc =>
+      match rest with
+      | [] =>
+        -- "objects accepted earlier can have been destructed by a later call of the filter"
+        { w := { w with res := acc.reverse.filter (fun i => !(w.c.objs i).destructed) }, val := some self }
+      | ob :: rest =>
+        if ¬ (ob < w.c.n) ∨ (w.c.objs ob).freed then crashR w "f_objects"
+        else if (w.c.objs ob).destructed then exec sc f (.objloop self rest acc) w
+        else if ¬ (self < w.c.n) ∨ (w.c.objs self).freed then crashR w "f_objects: current_object"
+        -- apply () itself does not refuse a destructed object; since the second `fix:` commit of this efun the calling
+        -- object is tested before every call of its filter, as call_efun_callback() does
+        else if (w.c.objs self).destructed then raise w errEfunCb
+        else
+          (exec sc f (.hook self .ofilt (some ob)) w).andThen fun w _ =>
+            exec sc f (.objloop self rest (ob :: acc)) w
 
 /-! ## top level -/
 
@@ -740,8 +807,6 @@ def lnStr : Option String → String
 def sentStr (l : List (String × Nat)) : String :=
   if l.isEmpty then "-" else ";".intercalate (l.map fun t => s!"{t.1}:{oid t.2}")
 
-def joinIds (l : List Nat) : String := ",".intercalate (l.map oid)
-
 /-- canonical dump of the structures (harness: walker over the real ones) -/
 def snapLines (c : Core) : List String :=
   let objLines := (List.range c.n).map fun i =>
@@ -753,12 +818,6 @@ def snapLines (c : Core) : List String :=
   let otLines := ((List.range otSize).filter (fun h => !(c.ot h).isEmpty)).map fun h => s!"S ot {h} {joinIds (c.ot h)}"
   let lvLines := ((List.range lvSize).filter (fun h => !(c.lv h).isEmpty)).map fun h => s!"S lv {h} {joinIds (c.lv h)}"
   objLines ++ otLines ++ [s!"S ol {joinIds c.ol}", s!"S dl {joinIds c.dl}"] ++ lvLines
-
-def insertSorted (x : Nat) : List Nat → List Nat
-  | [] => [x]
-  | y :: ys => if y < x then y :: insertSorted x ys else x :: y :: ys
-
-def sortIds (l : List Nat) : List Nat := l.foldr insertSorted []
 
 /-- first_inventory / next_inventory walk -/
 def invWalk (c : Core) : Nat → Option Nat → List Nat
